@@ -603,7 +603,55 @@ func ruleX5(p *Prog, r *Report) {
 			sort.Strings(copyErrFields)
 			canFalseFields, copyErrFields = uniq(canFalseFields), uniq(copyErrFields)
 			constFalse := len(canVals) == 1 && canVals["false"]
+			// delegation agreement: every part whose own copy the operation calls (and whose failure it propagates)
+			// is asked by the predicate whether it can be copied
+			delegates := func(fn *ssa.Function, names func(string) bool) []string {
+				set := map[string]bool{}
+				eachInstr(fn, func(in ssa.Instruction) {
+					c, ok := in.(ssa.CallInstruction)
+					if !ok || !names(calleeName(c)) {
+						return
+					}
+					rv := callRecv(c)
+					if rv == nil && len(c.Common().Args) > 0 {
+						rv = c.Common().Args[0]
+					}
+					if rv == nil {
+						return
+					}
+					set[recvFieldRoot(fn, rv, 0)] = true
+				})
+				var out []string
+				for k := range set {
+					out = append(out, k)
+				}
+				sort.Strings(out)
+				return out
+			}
+			isCopyName := func(s string) bool {
+				for _, pr := range copyPairs {
+					if s == pr[1] {
+						return true
+					}
+				}
+				return false
+			}
+			cpDel, canDel := delegates(cp, isCopyName), delegates(can, isCanName)
+			var notAsked []string
+			for _, d := range cpDel {
+				found := false
+				for _, e := range canDel {
+					if d == e {
+						found = true
+					}
+				}
+				if !found {
+					notAsked = append(notAsked, d)
+				}
+			}
 			switch {
+			case !constFalse && !allErr && len(notAsked) > 0:
+				r.Bad(R, cons, p.Pos(can.Pos()), fmt.Sprintf("%s copies {%s} through their own copy operation (which can refuse) but %s does not ask them: the copy would be offered and then fail", pr[1], strings.Join(notAsked, ","), pr[0]))
 			case constFalse != allErr:
 				r.Bad(R, cons, p.Pos(cp.Pos()), fmt.Sprintf("%s is constant false = %v but %s fails on every path = %v: 'copy is offered exactly when it succeeds' is broken for this type", pr[0], constFalse, pr[1], allErr))
 			case constFalse:
@@ -999,4 +1047,51 @@ func ruleX8(p *Prog, r *Report) {
 		})
 	}
 	r.Floor(R, "comma-ok downcasts of closed-family values", 3, n)
+}
+
+// recvFieldRoot names the receiver field a value is derived from (loaded field, element of a loaded field,
+// range value over it), "self" for the receiver itself, "?" otherwise.
+func recvFieldRoot(fn *ssa.Function, v ssa.Value, depth int) string {
+	if depth > 8 || len(fn.Params) == 0 {
+		return "?"
+	}
+	v = canon(v)
+	if v == ssa.Value(fn.Params[0]) {
+		return "self"
+	}
+	if fr, ok := asLoadedField(v); ok && sameValue(fr.Base, fn.Params[0]) {
+		return fr.Field
+	}
+	switch x := v.(type) {
+	case *ssa.UnOp:
+		return recvFieldRoot(fn, x.X, depth+1)
+	case *ssa.IndexAddr:
+		return recvFieldRoot(fn, x.X, depth+1)
+	case *ssa.Index:
+		return recvFieldRoot(fn, x.X, depth+1)
+	case *ssa.FieldAddr:
+		if sameValue(x.X, fn.Params[0]) {
+			_, n := structFieldName(x.X.Type(), x.Field)
+			return n
+		}
+		return recvFieldRoot(fn, x.X, depth+1)
+	case *ssa.Extract:
+		if nx, ok := x.Tuple.(*ssa.Next); ok {
+			if rg, ok := nx.Iter.(*ssa.Range); ok {
+				return recvFieldRoot(fn, rg.X, depth+1)
+			}
+		}
+		return recvFieldRoot(fn, x.Tuple, depth+1)
+	case *ssa.TypeAssert:
+		return recvFieldRoot(fn, x.X, depth+1)
+	case *ssa.MakeInterface:
+		return recvFieldRoot(fn, x.X, depth+1)
+	case *ssa.Phi:
+		for _, e := range x.Edges {
+			if r := recvFieldRoot(fn, e, depth+1); r != "?" {
+				return r
+			}
+		}
+	}
+	return "?"
 }
